@@ -21,6 +21,11 @@ try:
     src = open(demo).read() if os.path.exists(demo) else ""
     flags = []
     head = src[:3000] + (open(demosh).read() if os.path.exists(demosh) else "")
+    # flags come from the compile line(s) only when the demo gives one (prose in the header may mention flags that were merely tried)
+    _hl = re.sub(r"\\\n\s*(//|#)?", " ", head)
+    _cl = " ".join(re.findall(r"g\+\+[^\n]*", _hl))
+    full_head = head
+    if _cl: head = _cl
     if "-mavx2" in head: flags += ["-DNFL_OPTIMIZED", "-DNTT_AVX2", "-mavx2"]
     elif "-msse4.2" in head: flags += ["-DNFL_OPTIMIZED", "-DNTT_SSE", "-msse4.2"]
     elif "-DNFL_OPTIMIZED" in head: flags += ["-DNFL_OPTIMIZED"]
